@@ -54,6 +54,7 @@ type preq struct {
 	certID  int  // certificate the target presents in this setup (>=1)
 	postOK  bool // rest of the setup (user authorisation, tube creation) succeeds
 	reply   replyMode
+	delay   time.Duration // slow-target class: the scripted target waits this long before it answers / closes
 	// e2e only: scripted target-side callbacks
 	tcheck, tadd bool
 }
@@ -69,7 +70,8 @@ const (
 	evDW // principal writes on the delegate connection
 	evTCheck
 	evTAdd
-	evTR // target instance writes on the principal connection
+	evTR      // target instance writes on the principal connection
+	evPeerAct // the scripted target is about to answer (or to close instead of answering) a communication it read
 )
 
 type event struct {
@@ -138,8 +140,8 @@ func newIdleConn(c net.Conn, lg *evlog, kind evKind, offered *int64) *delConn {
 }
 
 // waitIdle waits until the instance asks for input having consumed `want` bytes (0), or it returned (2), or time is up (1)
-func (c *delConn) waitIdle(want int64, done chan struct{}) int {
-	t := time.NewTimer(stepTimeout)
+func (c *delConn) waitIdle(want int64, done chan struct{}, tmo time.Duration) int {
+	t := time.NewTimer(tmo)
 	defer t.Stop()
 	for {
 		select {
@@ -233,7 +235,9 @@ func targetCert(id int) *certs.Certificate {
 
 // runPrincipal runs one history through the real principal instance. e2e: the target side is the real
 // StartTargetInstance with scripted checkIntent/addAuthGrant instead of a scripted peer.
-func runPrincipal(reqs []preq, e2e bool) *prun {
+// tcp: the target connection is a TCP loopback connection (buffered, honours deadlines) instead of a net.Pipe,
+// and the scripted target tells requests apart by their (pairwise distinct) intents.
+func runPrincipal(reqs []preq, e2e bool, tcp bool) *prun {
 	res := &prun{peerGot: map[int]wi{}, peerSent: map[int]replyMode{}}
 	lg := &evlog{}
 	var cur int32 // index of the request being processed
@@ -295,6 +299,12 @@ func runPrincipal(reqs []preq, e2e bool) *prun {
 			return nil, errors.New("user authorization failed")
 		}
 		tP, tT := net.Pipe()
+		if tcp {
+			var err error
+			if tP, tT, err = tcpPair(); err != nil {
+				panic("driver: no TCP loopback: " + err.Error())
+			}
+		}
 		addCloser(tP)
 		addCloser(tT)
 		tc := &recConn{Conn: tP, lg: lg, kind: evTW}
@@ -330,7 +340,7 @@ func runPrincipal(reqs []preq, e2e bool) *prun {
 				tT.Close()
 			}
 		}
-		go scriptedTarget(tT, reqs, &cur, res, &pmu)
+		go scriptedTarget(tT, reqs, &cur, res, &pmu, lg, tcp)
 		return tc, nil
 	}
 
@@ -345,7 +355,7 @@ func runPrincipal(reqs []preq, e2e bool) *prun {
 		atomic.StoreInt32(&cur, int32(k))
 		st := offer(dD, &offered, append([]byte{1}, reqs[k].in.body()...))
 		if st == 0 {
-			st = dc.waitIdle(atomic.LoadInt64(&offered), done)
+			st = dc.waitIdle(atomic.LoadInt64(&offered), done, stepTimeout+reqs[k].delay)
 		}
 		evs := lg.snapshot()
 		res.perReq = append(res.perReq, evs[prev:])
@@ -379,7 +389,32 @@ func runPrincipal(reqs []preq, e2e bool) *prun {
 	return res
 }
 
-func scriptedTarget(c net.Conn, reqs []preq, cur *int32, res *prun, mu *sync.Mutex) {
+func tcpPair() (net.Conn, net.Conn, error) {
+	l, err := net.Listen("tcp", "127.0.0.1:0")
+	if err != nil {
+		return nil, nil, err
+	}
+	defer l.Close()
+	type r struct {
+		c   net.Conn
+		err error
+	}
+	ch := make(chan r, 1)
+	go func() { c, err := l.Accept(); ch <- r{c, err} }()
+	a, err := net.Dial("tcp", l.Addr().String())
+	if err != nil {
+		return nil, nil, err
+	}
+	b := <-ch
+	if b.err != nil {
+		a.Close()
+		return nil, nil, b.err
+	}
+	return a, b.c, nil
+}
+
+func scriptedTarget(c net.Conn, reqs []preq, cur *int32, res *prun, mu *sync.Mutex, lg *evlog, byIntent bool) {
+	last := -1
 	for {
 		t := make([]byte, 1)
 		if _, err := c.Read(t); err != nil {
@@ -394,11 +429,25 @@ func scriptedTarget(c net.Conn, reqs []preq, cur *int32, res *prun, mu *sync.Mut
 			return
 		}
 		k := int(atomic.LoadInt32(cur))
+		if byIntent {
+			// the principal may already be at a later request when a slow answer is finally read
+			for j := last + 1; j < len(reqs); j++ {
+				if reqs[j].in.eq(w) {
+					k = j
+					break
+				}
+			}
+		}
+		last = k
 		mode := reqs[k].reply
 		mu.Lock()
 		res.peerGot[k] = w
 		res.peerSent[k] = mode
 		mu.Unlock()
+		if reqs[k].delay > 0 {
+			time.Sleep(reqs[k].delay)
+		}
+		lg.add(event{kind: evPeerAct})
 		switch mode {
 		case rConfirm:
 			c.Write([]byte{3})
@@ -503,7 +552,7 @@ func runTarget(msgs []tmsg) *trun {
 				st = 1
 			}
 		} else if st == 0 {
-			st = tcn.waitIdle(atomic.LoadInt64(&offered), done)
+			st = tcn.waitIdle(atomic.LoadInt64(&offered), done, stepTimeout)
 		}
 		evs := lg.snapshot()
 		res.perMsg = append(res.perMsg, evs[prev:])
